@@ -105,29 +105,33 @@ def applyProp (id : Nat) (k : PKind) (acc : Props) (w : Bytes) : Except Err (Pro
       | .error _ => .error .malformed
       | .ok (v, rest') => .ok (acc.addUser k v, rest')
 
+/-- may property `id` appear: `ValidateID(packetType, id)` for `Properties.Unpack` (`t = some packetType`);
+    the `case` labels of `UnpackWillProperties` for `t = none` -/
+def idAllowed (t : Option Nat) (id : Nat) : Bool :=
+  match t with
+  | some pt => propAllowed pt id
+  | none => willProps.contains id
+
+/-- what the loop returns for an id that may not appear: `ErrProtocol` after the `ValidateID` test of `Unpack`,
+    `ErrMalformed` from the `default:` of `UnpackWillProperties` -/
+def notAllowedErr (t : Option Nat) : Err :=
+  match t with
+  | some _ => .protocol
+  | none => .malformed
+
 /-- the `for` loop of `Properties.Unpack` (`t = some packetType`) and of `UnpackWillProperties` (`t = none`) over
     `newBufr`. Every round consumes the id byte, so `fuel = len(newBufr)` rounds suffice. -/
 def unpackLoop (t : Option Nat) : Nat → Bytes → Props → Except Err Props
   | _, [], acc => .ok acc
   | 0, _ :: _, _ => .error .other
   | fuel + 1, id :: w, acc =>
-    match t with
-    | some pt =>
-      if !propAllowed pt id then .error .protocol else
-      match kindOf id with
-      | none => .error .malformed
-      | some k =>
-        match applyProp id k acc w with
-        | .error e => .error e
-        | .ok (acc', w') => unpackLoop t fuel w' acc'
-    | none =>
-      if !willProps.contains id then .error .malformed else
-      match kindOf id with
-      | none => .error .malformed
-      | some k =>
-        match applyProp id k acc w with
-        | .error e => .error e
-        | .ok (acc', w') => unpackLoop t fuel w' acc'
+    if !idAllowed t id then .error (notAllowedErr t) else
+    match kindOf id with
+    | none => .error .malformed
+    | some k =>
+      match applyProp id k acc w with
+      | .error e => .error e
+      | .ok (acc', w') => unpackLoop t fuel w' acc'
 
 /-- `p.Unpack(bufr, packetType)` / `p.UnpackWillProperties(bufr)` on a fresh `&Properties{}`.
     `bufr.Next(length)` silently returns fewer bytes when the buffer is shorter than the declared length. -/
